@@ -1,7 +1,44 @@
 import GluonModel.Sexp
-open GluonModel
+import GluonModel.GcHeap
+open GluonModel GluonModel.GcHeap
+
+def parsePath : Sexp → Option (List Nat)
+  | .list xs => xs.mapM Sexp.toNat?
+  | _ => none
+
+def parseKind : Sexp → Option Kind
+  | .atom "p" => some .plain
+  | .atom "t" => some .thread
+  | .atom "c" => some .cell
+  | .atom "s" => some .shallow
+  | .atom "u" => some .udata
+  | .atom "f" => some .code
+  | _ => none
+
+def parseObj : Sexp → Option Obj
+  | .list [ow, hm, k, es] => do
+    let ow ← parsePath ow
+    let hm ← parsePath hm
+    let k ← parseKind k
+    let es ← parsePath es
+    pure ⟨ow, hm, k, es⟩
+  | _ => none
+
+def parseObjs : Sexp → Option (List Obj)
+  | .list (.atom "objs" :: os) => os.mapM parseObj
+  | _ => none
+
+def natList (xs : List Nat) : String := String.join (xs.map fun x => " " ++ toString x)
 
 def handle : List Sexp → String
-  | _ => "unimplemented"
+  | [.atom "collect", t, objs] =>
+    match parsePath t, parseObjs objs with
+    | some t, some os =>
+      let s := State.ofArray os.toArray
+      match freedBy s t with
+      | some f => "(freed" ++ natList f ++ ")"
+      | none => "out-of-fuel"
+    | _, _ => "bad-request"
+  | _ => "bad-request"
 
 def main : IO Unit := driverLoop handle
